@@ -2,6 +2,7 @@ package random
 
 import (
 	"errors"
+	"math"
 	"math/rand"
 
 	"github.com/lmorg/murex/lang"
@@ -26,7 +27,7 @@ func cmdRand(p *lang.Process) error {
 	switch dt {
 	case types.Integer, types.Number:
 		max, _ := p.Parameters.Int(1)
-		if max > 0 {
+		if max > 0 && max < math.MaxInt {
 			v = rand.Intn(max + 1)
 		} else {
 			v = rand.Int()
